@@ -6,7 +6,7 @@
      matvec_forward_error_lemma  :  |fl(A x) - A x|_i <= gam n  Sum_j |a_ij| |x_j|                      (Higham (3.11))
 
    for every shape with n u < 1 -- the "to rounding accuracy" half of the product claims of C03.  As in
-   Proofs/RoundDot.v the count n uses the exact first addition 0 + a_i0 x_0 of every row ([fadd_0_l]). *)
+   Proofs/RoundDot.v the count n uses the exact first addition 0 + a_i0 x_0 of every row ([fadd_0_mul]). *)
 From Coq Require Import List Arith Lia Reals Lra Psatz.
 From OV Require Import Base.Panic Base.Arith Base.RoundModel Model.Vector Model.Matrix Proofs.Matrix Proofs.RoundDot.
 Import ListNotations.
@@ -30,7 +30,7 @@ Hypothesis u_range : 0 <= u < 1.
 Variables fadd fsub fmul fdiv : R -> R -> R.
 Hypothesis fadd_ok : forall x y, exists d, Rabs d <= u /\ fadd x y = (x + y) * (1 + d).
 Hypothesis fmul_ok : forall x y, exists d, Rabs d <= u /\ fmul x y = x * y * (1 + d).
-Hypothesis fadd_0_l : forall x, fadd 0 x = x.
+Hypothesis fadd_0_mul : forall a b, fadd 0 (fmul a b) = fmul a b.
 
 Notation AR := (ARm fadd fsub fmul fdiv).
 Notation gam := (gam u).
@@ -59,7 +59,7 @@ Theorem matvec_backward_error_lemma (m : matrix AR) (v w : list R) :
     (forall i j, (i < rows m)%nat -> (j < cols m)%nat -> Rabs (dA i j) <= gam (cols m) * Rabs (rentry m i j)) /\
     forall i, (i < rows m)%nat ->
       nth i w 0 = Rsum (cols m) (fun j => (rentry m i j + dA i j) * nth j v 0).
-Proof using u_range fadd_ok fmul_ok fadd_0_l.
+Proof using u_range fadd_ok fmul_ok fadd_0_mul.
   intros W Hn E. destruct (multiply_Ok_rows m v w W E) as (Lv & Lw & Hrow). split; [exact Lw|].
   destruct (fin_choice (fun _ : nat => 0)
               (fun i (d : nat -> R) =>
@@ -67,7 +67,7 @@ Proof using u_range fadd_ok fmul_ok fadd_0_l.
                  nth i w 0 = Rsum (cols m) (fun j => (rentry m i j + d j) * nth j v 0)) (rows m))
     as (F & HF).
   - intros i Hi.
-    destruct (sum_prod_round u u_range fadd fsub fmul fdiv fadd_ok fmul_ok fadd_0_l (cols m)
+    destruct (sum_prod_round u u_range fadd fsub fmul fdiv fadd_ok fmul_ok fadd_0_mul (cols m)
                 (fun k => rentry m i k) (fun k => nth k v 0)) as (Wt & HW & EW).
     exists (fun j => rentry m i j * (Wt j - 1)). split.
     + intros j Hj. rewrite Rabs_mult, Rmult_comm. apply Rmult_le_compat_r; [apply Rabs_pos|].
@@ -83,7 +83,7 @@ Theorem matvec_forward_error_lemma (m : matrix AR) (v w : list R) :
   forall i, (i < rows m)%nat ->
     Rabs (nth i w 0 - Rsum (cols m) (fun j => rentry m i j * nth j v 0))
       <= gam (cols m) * Rsum (cols m) (fun j => Rabs (rentry m i j) * Rabs (nth j v 0)).
-Proof using u_range fadd_ok fmul_ok fadd_0_l.
+Proof using u_range fadd_ok fmul_ok fadd_0_mul.
   intros W Hn E i Hi. destruct (matvec_backward_error_lemma m v w W Hn E) as (_ & dA & HdA & Hrow).
   rewrite (Hrow i Hi), <- Rsum_minus.
   rewrite (Rsum_ext _ _ (fun j => nth j v 0 * dA i j)) by (intros; ring).
